@@ -79,7 +79,7 @@ func runC17(o *hx.Out, r *hx.Rand, thorough bool) {
 			l.add(fmt.Sprintf("ClientEnter %d %s %s %s %s", s.Tag, hx.Str(method), hx.Z(int64(rq.Count)), hx.List(optIDs(opts)), ccTerm(cc, curDesc)))
 			if s.Calls == 0 {
 				if s.Fail != 0 {
-					return status.Error(codes.Code(s.Fail), "scripted")
+					return failErr(s.Fail)
 				}
 				reply.(*hx.Msg).Count = int32(s.DResp)
 				return nil
@@ -97,7 +97,7 @@ func runC17(o *hx.Out, r *hx.Rand, thorough bool) {
 				err = invoker(ctx, method, req2, reply, onward(s, cc), opts2...)
 			}
 			if s.Fail != 0 {
-				return status.Error(codes.Code(s.Fail), "scripted")
+				return failErr(s.Fail)
 			}
 			if err != nil {
 				return err
@@ -113,7 +113,7 @@ func runC17(o *hx.Out, r *hx.Rand, thorough bool) {
 			l.add(fmt.Sprintf("ClientEnter %d %s %s %s %s", s.Tag, hx.Str(method), hx.Z(v), hx.List(optIDs(opts)), ccTerm(cc, curDesc)))
 			if s.Calls == 0 {
 				if s.Fail != 0 {
-					return nil, status.Error(codes.Code(s.Fail), "scripted")
+					return nil, failErr(s.Fail)
 				}
 				return valStream{val: s.DResp}, nil
 			}
@@ -130,7 +130,7 @@ func runC17(o *hx.Out, r *hx.Rand, thorough bool) {
 				st, err = streamer(ctx2, desc, onward(s, cc), method, opts2...)
 			}
 			if s.Fail != 0 {
-				return nil, status.Error(codes.Code(s.Fail), "scripted")
+				return nil, failErr(s.Fail)
 			}
 			if err != nil {
 				return nil, err
@@ -161,8 +161,11 @@ func runC17(o *hx.Out, r *hx.Rand, thorough bool) {
 		case 1:
 			s.Calls = 2
 		}
-		if r.Chance(12) {
+		if r.Chance(20) {
 			s.Fail = int64(r.Range(1, 16))
+			if r.Chance(45) {
+				s.Fail = int64(-3 - r.Intn(2)) // the bare error of a context, not a status
+			}
 		}
 		return s
 	}
@@ -315,4 +318,15 @@ func (f fakeChan) Invoke(ctx context.Context, method string, req, reply interfac
 func (f fakeChan) NewStream(ctx context.Context, desc *grpc.StreamDesc, method string, opts ...grpc.CallOption) (grpc.ClientStream, error) {
 	f.l.add(fmt.Sprintf("BaseCall %s %s %s", hx.Str(method), hx.Z(ctxVal(ctx)), hx.List(optIDs(opts))))
 	return valStream{val: ctxVal(ctx) + f.tag}, nil
+}
+
+// failErr: the error a scripted interceptor returns: a status, or (negative) the bare error value of a context
+func failErr(c int64) error {
+	switch c {
+	case -3:
+		return context.Canceled
+	case -4:
+		return context.DeadlineExceeded
+	}
+	return status.Error(codes.Code(c), "scripted")
 }
